@@ -99,6 +99,9 @@ def run(rep):
             rep.ok("codec-symmetric", nm, sample="%d field(s) written and read back with %s" % (nf, [c[1] for c in wc]))
         else:
             rep.fail("codec-symmetric", nm, "%s: written as %s, read as %s" % (nm, wc, r), site=m["de_body"].loc())
+    # ---- every custom codec used by a stored type is a lossless, analysed writer/reader pair
+    from .c15 import codec_pairs
+    codec_pairs(rep, {k: v for k, v in wm.items() if k in clo})
     # ---- generators imply validators
     nn = method(prog, NONCE, "new")
     if rep.anchor("Nonce::new", nn):
